@@ -164,7 +164,20 @@ def explore(ctx: Ctx, strategy, run_one, max_examples: int, salt=0, shrink=None)
             return
         holder['case'] = case
         try:
-            nontrivial, fingerprint, sample, labels = run_one(case)
+            try:
+                nontrivial, fingerprint, sample, labels = run_one(case)
+            except (Violation, HarnessError):
+                raise
+            except Exception as exc:  # pylint: disable=broad-except
+                # an exception escaping from LIBRARY code on a valid call is a violation of the property under test; an
+                # exception raised by harness code stays a harness error
+                from .interp import library_frame, raised_in_library  # pylint: disable=import-outside-toplevel
+
+                if raised_in_library(exc):
+                    raise Violation(
+                        ctx.prop, f'library-raised:{type(exc).__name__}:{library_frame(exc)}', f'a valid call raised {exc!r} inside the library'
+                    ) from exc
+                raise
         except Violation as exc:
             entry = known_match(ctx.known, exc.prop, exc.sig)
             if entry is not None:
